@@ -28,6 +28,7 @@ Wire form of one op (also what Driver/H_c03.lean decodes):
   FLAGS = 9 booleans: include_time, _variables, _parameters, _derived_parameters, _derived_variables, _reactions,
           _surrogate_variables, _surrogate_fluxes, _readouts.     ROWS = [[t, VALS], ...] (distinct times)
   ["fork"]: the history continues on `copy.deepcopy(model)`; the original must stay as it was.
+  ["fork", "pickle"]: the same through `pickle.loads(pickle.dumps(model))`.
   A VAL may carry "obj": true — the plural forms then receive a `Parameter` / `Variable` object instead of the bare value.
   ["add_surrogate", n, SUR, args|null, outs|null, st|null]: the keyword form of add_surrogate.
 """
@@ -68,6 +69,25 @@ def F(x):
 
 _FN_MEMO: dict = {}
 
+# the compiled functions live in a module of their own so that `pickle` can store them by reference (a model with
+# functions defined in an importable module pickles; nothing of `Model` is special-cased: it has no `__getstate__`)
+_FN_MODULE_NAME = "mxlverif_c03_fns"
+
+
+def _register(f):
+    import sys
+    import types
+
+    mod = sys.modules.get(_FN_MODULE_NAME)
+    if mod is None:
+        mod = types.ModuleType(_FN_MODULE_NAME)
+        sys.modules[_FN_MODULE_NAME] = mod
+    name = f"fn_{len(vars(mod))}"
+    f.__module__ = _FN_MODULE_NAME
+    f.__name__ = f.__qualname__ = name
+    setattr(mod, name, f)
+    return f
+
 
 def mkfn(e, arity, sig=None):
     """a real Python function for `e` (memoised: pure functions may be shared between models).
@@ -83,7 +103,7 @@ def mkfn(e, arity, sig=None):
     key = (json.dumps(e), arity)
     f = _FN_MEMO.get(key)
     if f is None:
-        f = fexpr.compile_fn(e, arity)
+        f = _register(fexpr.compile_fn(e, arity))
         f._mxl_e = e
         _FN_MEMO[key] = f
     return f
@@ -108,7 +128,7 @@ def mkfn_sig(e, sig):
     src = f"def f({', '.join(params)}):\n{pre}    return {fexpr.src_expr(e, names)}\n"
     ns: dict = {}
     exec(compile(src, "<mxlverif-c03-sig>", "exec"), ns)  # noqa: S102
-    f = ns["f"]
+    f = _register(ns["f"])
     f._mxl_e = e
     f._mxl_sig = list(sig)
     _FN_MEMO[key] = f
@@ -140,7 +160,7 @@ def mkmulti(es, arity):
     key = ("multi", json.dumps(es), arity)
     f = _FN_MEMO.get(key)
     if f is None:
-        f = fexpr.compile_multi(es, arity)
+        f = _register(fexpr.compile_multi(es, arity))
         f._mxl_es = es
         _FN_MEMO[key] = f
     return f
@@ -473,10 +493,14 @@ def _fn_wire(obj):
     # the number of positional parameters is part of the function: a fresh model gets the same function
     sig = getattr(obj.fn, "_mxl_sig", None)
     if sig is None:
-        import inspect
+        sig = getattr(obj.fn, "_mxl_plain_sig", None)
+        if sig is None:
+            import inspect
 
-        sig = [len(inspect.getfullargspec(obj.fn).args), None, 0, False]
-    w["sig"] = sig
+            # (memoised on the function object: the harness' functions are immutable and shared)
+            sig = [len(inspect.getfullargspec(obj.fn).args), None, 0, False]
+            obj.fn._mxl_plain_sig = sig
+    w["sig"] = list(sig)
     return w
 
 
